@@ -15,26 +15,6 @@ def readCore (ccd : Ccd) (rows : List SiteRow) (coords : List (List Tok)) (conn 
   | some c => (parseInter rows c).map fun inter => fin (mergeBonds base inter)
   | none => .ok (fin base)
 
-theorem distinctCount_pos (x : Int) (xs : List Int) : 1 ≤ distinctCount (x :: xs) := by
-  simp [distinctCount, List.eraseDups_cons]
-
-theorem readStructure_model1 (ccd : Ccd) (b : Block) (hc hi : Bool) (hne : b.site ≠ []) :
-    readStructure ccd b ⟨some 1, .first, true, hc, hi⟩ =
-      readCore ccd ((splitModels b.site).getD 0 []) [((splitModels b.site).getD 0 []).map (·.xyz)] b.conn b.ccb b.cell hc hi := by
-  have hcnt : 1 ≤ distinctCount (b.site.map (·.model)) := by
-    cases hs : b.site with
-    | nil => exact absurd hs hne
-    | cons r rs => simpa using distinctCount_pos r.model (rs.map (·.model))
-  have hcond : ¬ ((distinctCount (b.site.map (·.model)) : Int) < 1) := by omega
-  unfold readStructure readCore
-  simp only [bind, Except.bind, pure, Except.pure]
-  simp [hcond]
-  cases b.conn with
-  | none => simp
-  | some c =>
-    simp only []
-    cases parseInter ((splitModels b.site).getD 0 []) c <;> simp [Except.map]
-
 /-! ### facts about the written table -/
 
 theorem split_writeSite (s : Structure) (hne : s.atoms ≠ []) (hc : ∀ c ∈ s.coords, c.length = s.atoms.length) :
